@@ -210,7 +210,76 @@ func structuralMutants(rng *rand.Rand, s []byte, checkSize int, contentLen int) 
 		return t
 	})
 	add("index-indicator", true, func(t []byte) []byte { t[l.index] = 1; return t })
+	// a smaller (still valid) dictionary size code: legal iff every distance still fits; never "metadata"
+	add("block-dict-code-shrink", false, func(t []byte) []byte {
+		if t[fo+2] == 0 {
+			return nil
+		}
+		t[fo+2] = byte(rng.Intn(int(t[fo+2])))
+		reseal(t, b.hdr, b.hdr+b.hdrLen-4)
+		return t
+	})
+	// structurally valid index (count, records, padding, CRC32, backward size all consistent with each other)
+	// that does not describe the blocks: a record dropped, a record duplicated, two records swapped
+	recs := indexRecords(s, l)
+	rebuild := func(name string, rs [][2]uint64) {
+		add(name, true, func(t []byte) []byte {
+			idx := marshalIndex(rs)
+			u := append(append([]byte{}, t[:l.index]...), idx...)
+			foot := append([]byte{}, t[l.footer:]...)
+			binary.LittleEndian.PutUint32(foot[4:], uint32(len(idx)/4-1))
+			u = append(u, foot...)
+			reseal2(u, len(u)-12)
+			return u
+		})
+	}
+	if len(recs) > 0 {
+		rebuild("index-record-dropped", recs[:len(recs)-1])
+		rebuild("index-record-dropped-first", recs[1:])
+		rebuild("index-record-duplicated", append(append([][2]uint64{}, recs...), recs[len(recs)-1]))
+		rebuild("index-empty", nil)
+	}
+	if len(recs) > 1 && recs[0] != recs[len(recs)-1] {
+		sw := append([][2]uint64{}, recs...)
+		sw[0], sw[len(sw)-1] = sw[len(sw)-1], sw[0]
+		rebuild("index-records-swapped", sw)
+	}
 	return out
+}
+
+func indexRecords(s []byte, l xzLayout) (recs [][2]uint64) {
+	defer func() {
+		if recover() != nil {
+			recs = nil
+		}
+	}()
+	p := l.index + 1
+	cnt, k := binary.Uvarint(s[p:])
+	p += k
+	for i := 0; i < int(cnt); i++ {
+		a, k := binary.Uvarint(s[p:])
+		p += k
+		b, k2 := binary.Uvarint(s[p:])
+		p += k2
+		recs = append(recs, [2]uint64{a, b})
+	}
+	return recs
+}
+
+func marshalIndex(rs [][2]uint64) []byte {
+	out := []byte{0}
+	tmp := make([]byte, 10)
+	out = append(out, tmp[:binary.PutUvarint(tmp, uint64(len(rs)))]...)
+	for _, r := range rs {
+		out = append(out, tmp[:binary.PutUvarint(tmp, r[0])]...)
+		out = append(out, tmp[:binary.PutUvarint(tmp, r[1])]...)
+	}
+	for len(out)%4 != 0 {
+		out = append(out, 0)
+	}
+	crc := make([]byte, 4)
+	binary.LittleEndian.PutUint32(crc, crc32.ChecksumIEEE(out))
+	return append(out, crc...)
 }
 
 func reseal2(t []byte, footer int) {
@@ -250,6 +319,11 @@ func checkC04(a *checkArgs, r *Result) error {
 		}
 	}
 	for _, b := range corpusStreams(1200) {
+		if b.Kind == "xz" {
+			bases = append(bases, b)
+		}
+	}
+	for _, b := range farMatchStreams(rng, 6) {
 		if b.Kind == "xz" {
 			bases = append(bases, b)
 		}
